@@ -495,9 +495,129 @@ func oracle(c Case, o *h.Obs) *h.Fail {
 	return nil
 }
 
+// ---------- sub-check "cached": small-value fast paths keep returning the same values ----------
+
+// A history of statements that compute small integers (the cached -1..4095 band) and then
+// write through every handle a script can get on such a value (pointer, ++, op=, element,
+// map entry, parameter); afterwards the arithmetic tree must still evaluate to what Go
+// computes. A fast path that hands out shared or mutable boxes shows here, and only here:
+// no single expression evaluated in isolation does.
+type HistCase struct {
+	Pre  []string `json:"pre"`
+	Root *Node    `json:"root"`
+}
+
+var preIdioms = []string{
+	"hv = %s\nhp = &hv\n*hp = %d",
+	"hv = %s\nhv++",
+	"hv = %s\nhv--",
+	"hv = %s\nhv += %d",
+	"hv = %s\nhv *= %d",
+	"hl = [%s, %s]\nhl[0] = %d",
+	"hl = []int64{%s}\nhl[0] = %d\nhq = &hl\n(*hq)[0] = %d",
+	"hm = {\"k\": %s}\nhm.k = %d\nhm[\"k\"] += %d",
+	"hf = func(v) { v = %d; v++; return v }\nhf(%s)",
+	"hf = func(v) { hp = &v; *hp = %d; return v }\nhf(%s)",
+	"hs = make(struct{A int64})\nhs.A = %s\nhq = &hs\nhq.A = %d",
+	"hv = %s\nfor hi = 0; hi < 3; hi++ { hv = hv + hi }\nhp = &hv\n*hp = %d",
+	"hp = new(int64)\n*hp = %s\n*hp += %d",
+}
+
+func smallExpr(t *rapid.T) string {
+	a := rapid.IntRange(-1, 40).Draw(t, "sa")
+	b := rapid.IntRange(0, 40).Draw(t, "sb")
+	switch rapid.IntRange(0, 5).Draw(t, "sform") {
+	case 0:
+		return fmt.Sprintf("(%d + %d)", a, b)
+	case 1:
+		return fmt.Sprintf("(%d * %d)", rapid.IntRange(0, 60).Draw(t, "m1"), rapid.IntRange(0, 60).Draw(t, "m2"))
+	case 2:
+		return fmt.Sprintf("(%d %% %d)", b+7, rapid.IntRange(1, 9).Draw(t, "mod"))
+	case 3:
+		return fmt.Sprintf("(-(%d - %d))", a, b)
+	case 4:
+		return fmt.Sprintf("len([%d, %d, %d])", a, b, a)
+	default:
+		return fmt.Sprintf("(%d - %d)", a+b, b)
+	}
+}
+
+func genHist(t *rapid.T) HistCase {
+	var c HistCase
+	n := rapid.IntRange(1, 3).Draw(t, "npre")
+	for i := 0; i < n; i++ {
+		idiom := rapid.SampledFrom(preIdioms).Draw(t, "idiom")
+		var args []interface{}
+		for j := 0; j+1 < len(idiom); j++ {
+			if idiom[j] == '%' {
+				switch idiom[j+1] {
+				case 's':
+					args = append(args, smallExpr(t))
+				case 'd':
+					args = append(args, rapid.IntRange(-1, 4097).Draw(t, "w"))
+				}
+			}
+		}
+		c.Pre = append(c.Pre, fmt.Sprintf(idiom, args...))
+	}
+	// the tree only uses small integer leaves so that its results live in the cached band
+	c.Root = genSmallTree(t, rapid.IntRange(1, 3).Draw(t, "depth"))
+	return c
+}
+
+func genSmallTree(t *rapid.T, depth int) *Node {
+	if depth <= 0 {
+		return &Node{Op: "leaf", K: "i", I: int64(rapid.IntRange(-2, 70).Draw(t, "leaf")), Prov: rapid.SampledFrom([]string{"lit", "var", "id"}).Draw(t, "prov")}
+	}
+	switch rapid.IntRange(0, 7).Draw(t, "shape") {
+	case 0:
+		return &Node{Op: "neg", L: genSmallTree(t, depth-1)}
+	case 1:
+		return &Node{Op: "inv", L: genSmallTree(t, depth-1)}
+	default:
+		op := rapid.SampledFrom([]string{"+", "-", "*", "%", "&", "|", "<<", ">>"}).Draw(t, "op")
+		return &Node{Op: op, L: genSmallTree(t, depth-1), R: genSmallTree(t, depth-1)}
+	}
+}
+
+func oracleHist(c HistCase, o *h.Obs) *h.Fail {
+	p := &printer{}
+	expr := p.expr(c.Root)
+	src := strings.Join(c.Pre, "\n") + "\n" + strings.Join(append(p.vars, expr), "\n")
+	o.Key = src
+	st := &stats{}
+	want, wantErr := refEval(c.Root, st)
+	o.NonTrivial = true
+	if st.nearCache {
+		o.Class("hist_result_near_cache_bound")
+	}
+	got, err := ank.Exec(newEnv(), src)
+	if hp, ok := ank.IsHostPanic(err); ok {
+		return h.Failf("C05|host-panic|"+ank.NormPanic(hp.Value), "source:\n%s\nescaped panic: %v", src, hp.Value)
+	}
+	if wantErr {
+		if err == nil {
+			return h.Failf("C05|cached|missing-error", "source:\n%s\nreference: error expected\nanko: %s", src, ank.Describe(got))
+		}
+		return nil
+	}
+	if err != nil {
+		// the history itself may fail (e.g. pointer store of an unconvertible value is not generated, but %
+		// by zero in the tree is handled above); any other error is unexpected
+		return h.Failf("C05|cached|unexpected-error", "source:\n%s\nreference: %v\nanko error: %v", src, want, err)
+	}
+	g, is := got.(int64)
+	if !is || g != want.i {
+		return h.Failf("C05|cached|wrong-result-after-history", "after a history of writes through pointers / ++ / op= / elements / parameters on small computed integers the expression no longer evaluates to Go's result\nsource:\n%s\nreference (native Go): %v\nanko: %s", src, want, ank.Describe(got))
+	}
+	return nil
+}
+
 func TestC05(t *testing.T) {
 	c := h.New(t, "C05")
 	defer c.Finish()
 	c.Rule("trees of depth<=4 over + - * / % & | << >>, unary - ^, comparisons; leaves from the int64/float64/string edge pools as literal, variable or id(x) result; operand kinds restricted to those the statement defines; non-trivial = an operand outside [-1,4095] or a mixed int/float node or a wrap-around/oversized shift in the reference; distinct by source text")
 	h.Run(c, "arith", c.N(60000, 500000), genCase, oracle)
+	c.Rule("cached: 1-3 statements that compute integers in the cached band -1..4095 and then write through a pointer / ++ / op= / element / map entry / struct field / parameter, followed by an integer tree over small leaves: the tree must still evaluate to Go's result (no shared mutable boxes behind the small-value fast path); every case counts as non-trivial; distinct by source text")
+	h.Run(c, "cached", c.N(15000, 150000), genHist, oracleHist)
 }
